@@ -23,6 +23,8 @@ Kernel operations (the model predicts the value; byte strings are hex, `-` = emp
                                         (valid / stale / corrupted), lookups on ONE symbol map (`BPC.serve`);
                                         <look> = none | panic
                                                | sym <addr> <size|none> <name> <n|none> [, frame <fn|none> <file|none> <line|none>]*
+                                        an address `iter` = `iter_symbols()` collected at that point:
+                                               iter <n> <addr>:<name>,… | iter panic   (`BPC.serveSession`)
 
 Exploration operations (third-party parsers in the loop; the model only states the property: the call
 returns): `file …` → `set`; `api <path> <body>`, `lookup …`, `symcreate …`, `debugid …`, `bigsym …` → `fine`.
@@ -82,6 +84,13 @@ def showServed : BPC.Served → String
   | .unparsed => "served unparsed"
   | .notBreakpad => "served notbreakpad"
   | .looks ls => "served " ++ " ; ".intercalate (ls.map showLook)
+  | .session pre names post =>
+    let it := match names with
+      | none => "iter panic"
+      | some ns =>
+        if ns.isEmpty then "iter 0"
+        else s!"iter {ns.length} " ++ ",".intercalate (ns.map fun p => s!"{p.1}:{bytesHex p.2}")
+    "served " ++ " ; ".intercalate (pre.map showLook ++ [it] ++ post.map showLook)
 
 def modelOp (l : String) : String :=
   match words l with
@@ -124,7 +133,11 @@ def modelOp (l : String) : String :=
   | ["bpinline", d, a, s, addr] =>
     render (bpInline (hexBytes d) (hexBytes a) (hexBytes s) (nat! addr))
       (fun o => match o with | some n => s!"frames {n}" | none => "none") (fun _ => "err")
-  | "bpmap" :: t :: i :: addrs => showServed (BPC.serve (hexBytes t) (hexBytes i) (addrs.map nat!))
+  | "bpmap" :: t :: i :: addrs =>
+    if addrs.contains "iter" then
+      showServed (BPC.serveSession (hexBytes t) (hexBytes i) ((addrs.takeWhile (· != "iter")).map nat!)
+        (((addrs.dropWhile (· != "iter")).drop 1).map nat!))
+    else showServed (BPC.serve (hexBytes t) (hexBytes i) (addrs.map nat!))
   | "file" :: _ => "set"
   | "api" :: _ => "fine"
   | "lookup" :: _ => "fine"
